@@ -97,7 +97,11 @@ def sub_recipe(draw, max_budget=60, opts=None, min_level=4):
                 kind = "ref"
             params.append(["p%d" % k, t, kind])
         ret = g.pick(["U", "U", "B", "N"])
-        g.routines.append({"name": g.pick(["f", "g", "helper", "r"]) + str(i), "kind": "sub", "params": params, "ret": ret,
+        kind = "sub"
+        if level >= 5 and opts.get("abi_routines", True) and g.chance(3):
+            kind = "abi"
+            params = [[p[0], p[1], "abi" if (p[2] == "val" and p[0] != "fuel" and g.chance(6)) else p[2]] for p in params]
+        g.routines.append({"name": g.pick(["f", "g", "helper", "r"]) + str(i), "kind": kind, "params": params, "ret": ret,
                            "locals": {}, "body": None, "may_call": may[i]})
     # a few global variables shared by main and the routines
     cxm = Cx()
@@ -106,8 +110,11 @@ def sub_recipe(draw, max_budget=60, opts=None, min_level=4):
     # routine bodies
     nguards = 0
     for i, r in enumerate(g.routines):
-        rinfo = {"ret": r["ret"], "params": {p[0]: (p[1], p[2]) for p in r["params"]}, "locals": {}, "may_call": r["may_call"]}
+        rinfo = {"ret": r["ret"], "params": {p[0]: (p[1], "val" if p[2] == "abi" else p[2]) for p in r["params"]}, "locals": {}, "may_call": r["may_call"]}
         cx = Cx(routine=rinfo)
+        is_abi = r["kind"] == "abi"
+        if is_abi:
+            cx.can_jump = False  # an ABIReturnSubroutine body sets its output; no Return/Break/Continue generated inside
         for _ in range(g.i(0, 2)):
             g.new_var(g.pick(["U", "B"]), cx)
         g.budget = max(g.budget, 6)
@@ -129,13 +136,13 @@ def sub_recipe(draw, max_budget=60, opts=None, min_level=4):
                     stmts.append(g.S(cx.sub()))
         if r["ret"] == "N":
             body_items = stmts
-            if g.chance(4):
+            if g.chance(4) and not is_abi:
                 body_items = stmts + [tail_if(g, cx, "N")]
-        elif g.chance(2):
+        elif g.chance(2) and not is_abi:
             body_items = stmts + [tail_if(g, cx, r["ret"])]
         else:
             final = g.U(cx.sub()) if r["ret"] == "U" else g.B(cx.sub())
-            if g.chance(3):
+            if g.chance(3) and not is_abi:
                 final = ["return", final]
             body_items = stmts + [final]
         r["locals"] = rinfo["locals"]
